@@ -17,8 +17,22 @@ EMPTY_MSG = project.empty_msg("none")
 
 def base_event(eid, obj, kind):
     return {"id": eid, "obj": obj, "k": kind, "msg": EMPTY_MSG, "status": "ok", "warns": [],
-            "ser_eq": True, "intact": True, "cls": "", "completed_eq": True, "acc_eq": True, "expose_intact": True, "unshared": True,
+            "ser_eq": True, "intact": True, "cls": "", "completed_eq": True, "acc_eq": True, "expose_intact": True, "unshared": True, "fresh_eq": True,
             "completed_acc": False}
+
+
+def fresh_pair(parse_ro, parse_msg, ro_text, msg_text):
+    """a freshly read copy of the running order and of the message (None when the serialisation does not read back to
+    itself - that is C14's business - or cannot be read)"""
+    try:
+        with warnings.catch_warnings():
+            warnings.simplefilter("ignore")
+            ro = parse_ro(ro_text)
+            if str(ro) != ro_text:
+                return None
+            return ro, parse_msg(msg_text)
+    except Exception:  # noqa: BLE001
+        return None
 
 
 def accessor_view(ro):
@@ -107,25 +121,32 @@ def run_behaviour(bid, beh, seed, observe=None, expose=None):
                 if not execute.same_reading(m, text):
                     events.append(execute.parse_event(eid, "msg"))
                     return events
-                live[idx] = (m, str(m), expose(m, mabs["cls"]) if expose else None)
+                live[idx] = (m, str(m), expose(m, mabs["cls"]) if expose else None, text)
             else:
                 if step["ref"] not in live:
                     continue
                 m = live[step["ref"]][0]
             before = str(ro)
-            res, status, warns, err = add(ro, m, direct=g.rng("direct", idx).random() < 0.2)
+            direct = g.rng("direct", idx).random() < 0.2
+            shadow = fresh_pair(parse_ro, parse_msg, before, live[idx][3] if kind == "merge" else live[step["ref"]][3])
+            res, status, warns, err = add(ro, m, direct=direct)
             if status == "ok":
                 if isinstance(res, execute.RunningOrder):
                     objs[o] = res
                 else:
                     status = "crash:BadReturn"
             ev.update(post=snap(o), status=status, warns=warns, ser_eq=(str(ro) == before),
-                      intact=all(str(mm) == s0 for mm, s0, _ in live.values()),
-                      unshared=not (any(execute.shares(r, mm) for r in objs.values() for mm, _, _ in live.values())
+                      intact=all(str(mm) == s0 for mm, s0, _, _t in live.values()),
+                      unshared=not (any(execute.shares(r, mm) for r in objs.values() for mm, _, _, _t in live.values())
                                     or any(execute.shares(objs[x], objs[y]) for x in objs for y in objs if x < y)),
                       completed_acc=execute.completed_of(objs[o]))
+            if shadow is not None:
+                # the same contents, freshly read: the outcome may depend on nothing else (no memory of earlier lookups)
+                fres, fstatus, fwarns, _ = add(shadow[0], shadow[1], direct=direct)
+                fout = fres if fstatus == "ok" and isinstance(fres, execute.RunningOrder) else shadow[0]
+                ev["fresh_eq"] = (fstatus, fwarns, str(fout)) == (status, warns, str(objs[o]))
             if expose:
-                ev["expose_intact"] = all(expose(mm, type(mm).__name__) == x0 for mm, _, x0 in live.values())
+                ev["expose_intact"] = all(expose(mm, type(mm).__name__) == x0 for mm, _, x0, _t in live.values())
         elif kind == "reload":
             text = str(ro)
             try:
